@@ -281,7 +281,8 @@ func blobProvSim(r *simcore.Run) {
 			}
 			if bkt.listErr != nil {
 				if commLike(bkt.listErr) {
-					all(func(m *provsim.SourceModel) { m.Unreachable("list failed") })
+					// network issues preserve what was received before (provider documentation)
+					all(func(m *provsim.SourceModel) { m.Kept("network issue: list failed") })
 				} else {
 					all(func(m *provsim.SourceModel) { m.Kept("list failed (not a communication error)") })
 				}
@@ -305,7 +306,7 @@ func blobProvSim(r *simcore.Run) {
 					}
 				}
 				if commLike(err) {
-					all(func(m *provsim.SourceModel) { m.Unreachable("object read failed") })
+					all(func(m *provsim.SourceModel) { m.Kept("network issue: object read failed") })
 				} else {
 					all(func(m *provsim.SourceModel) { m.Kept("object read failed (not a communication error)") })
 				}
